@@ -135,6 +135,8 @@ func c11GenParents(np int, children []*c11Child, refsMode int) []*c11Parent {
 		ts := c11Time("parentTimestamp")
 		vAssume(ts <= p.committed)
 		w := &osm.Way{ID: 7, Version: i + 1, Visible: true, ChangesetID: osm.ChangesetID(vInt64("parentCS")), Timestamp: time.Unix(ts, 0), Committed: &ct}
+		// a way that was annotated before carries an update list from that run: it is replaced
+		w.Updates = osm.Updates{{Index: 0, Version: 77, ChangesetID: 777}}
 		for _, r := range p.refs {
 			w.Nodes = append(w.Nodes, osm.WayNode{ID: children[r].id})
 		}
@@ -264,6 +266,11 @@ func VerifH_C11_errors() {
 	switch scenario {
 	case 0:
 		vAssert(err == nil, "deleted-parent-no-error")
+		// no annotations: the member references stay as they were and no update list is
+		// attached (a list left over from an earlier run is dropped, like for every version)
+		before.Updates = nil
+		vAssert(len(ways[0].Updates) == 0, "deleted-parent-has-no-updates")
+		ways[0].Updates = nil
 		vAssert(vSame(ways[0], before), "deleted-parent-untouched")
 	case 1:
 		if ignoreMissing {
